@@ -915,7 +915,7 @@ class Builder(object):
                 self.currentHouse.mids.append(server)
 
         msg = "     Created server named {0} at period {2:0.4f} be {3}\n".format(
-            server.name, name, server.period,  ScheduleNames[server.schedule])
+            server.name, name, server.period,  ScheduleNames.get(server.schedule, server.schedule))
         console.profuse(msg)
 
         return True
